@@ -334,6 +334,24 @@ pub fn enumerate(thorough: bool) -> Acc {
         ] {
             run_script(&mut acc, Entry::ReadArr24Segmented, &Script { what: what.to_string(), replies: vec![init.clone(), s], repeat_last: true, refill: None, mbx: 64 });
         }
+        // two coordinated fields of a segment: every data length 0..=8 x every value of the 3-bit
+        // 'unused bytes' field, as a last segment and as a non-last one
+        for n in 0..=8usize {
+            for unused in 0..=7u8 {
+                for last in [true, false] {
+                    let mut s = seg(n, unused);
+                    if last {
+                        let k = s.len() - n - 1;
+                        s[k] |= 0x01;
+                    }
+                    run_script(
+                        &mut acc,
+                        Entry::ReadArr24Segmented,
+                        &Script { what: format!("segment with {} data bytes and unused-bytes field {}", n, unused), replies: vec![init.clone(), s], repeat_last: true, refill: None, mbx: 64 },
+                    );
+                }
+            }
+        }
     }
     acc
 }
@@ -346,7 +364,7 @@ pub fn c16(tier: &Tier, child: bool) -> Result<i32, String> {
         return Ok(0);
     }
     let mut rep = Report::new("C16", "exploration", tier);
-    rep.rule = "for each SDO / SDO-info entry point (expedited, normal and segmented upload, expedited download, object description list, object quantities) and each step of its exchange, the device's reply is a valid reply with one perturbation: every truncation length; mailbox length field 0..=64 and boundaries (all 65536 values in the thorough tier); every value of the type/counter byte; all 16 CoE services; every value of the first body byte (command/size/flags or op-code/incomplete); index/sub-index and fragments-left boundaries; complete-size boundaries; mailbox sizes 16 and 64 (16..1024 thorough); plus endless 'more fragments', endless zero-length / short / oversize segments and endless foreign op-codes; executed with and without overflow checks; non-trivial = every scripted reply".into();
+    rep.rule = "for each SDO / SDO-info entry point (expedited, normal and segmented upload, expedited download, object description list, object quantities) and each step of its exchange, the device's reply is a valid reply with one perturbation: every truncation length; mailbox length field 0..=64 and boundaries (all 65536 values in the thorough tier); every value of the type/counter byte; all 16 CoE services; every value of the first body byte (command/size/flags or op-code/incomplete); index/sub-index and fragments-left boundaries; complete-size boundaries; mailbox sizes 16 and 64 (16..1024 thorough); plus endless 'more fragments', endless zero-length / short / oversize segments, every segment data length 0..=8 x every 'unused bytes' value, and endless foreign op-codes; executed with and without overflow checks; non-trivial = every scripted reply".into();
     rep.assumptions = vec![
         "'whatever bytes' is decided for single-field perturbations of well-formed replies and the listed endless scripts, not for all byte strings".into(),
         "out-of-bounds reads are observed indirectly: every byte of a returned value must occur in what the device placed in the mailbox window (tagged replies, 0xEE elsewhere)".into(),
